@@ -1,6 +1,7 @@
 /* ENCX / W2T / T2T: tree-level correspondence.
  *   ENCX <gen> <indent> <keepws> <tree>   -> R <code> ; <hex xml>     (wbxml_tree_to_xml)
  *   W2T <lang> <charset> <hexdoc>        -> R <code> ; <tree>        (wbxml_tree_from_wbxml)
+ *   X2T <hexxml> [ignored…]            -> R <code> ; <tree>        (wbxml_tree_from_xml)
  *   T2T <tree>                           -> <tree>                   (serialiser round trip)
  */
 #include "treeio.h"
@@ -29,6 +30,14 @@ int main(void)
         } else if (nt == 4 && !strcmp(t[0], "W2T")) {
             size_t n; unsigned char *doc = hx_unhex(t[3], &n); WBXMLTree *tree = NULL;
             WBXMLError ret = n ? wbxml_tree_from_wbxml(doc, (WB_ULONG)n, (WBXMLLanguage)atoi(t[1]), (WBXMLCharsetMIBEnum)atoi(t[2]), &tree) : WBXML_ERROR_EMPTY_WBXML;
+            printf("R %d ; ", (int)ret);
+            if (ret == WBXML_OK && tree) tio_print_tree(stdout, tree);
+            puts("");
+            if (tree) wbxml_tree_destroy(tree);
+            free(doc);
+        } else if (nt >= 2 && !strcmp(t[0], "X2T")) {
+            size_t n; unsigned char *doc = hx_unhex(t[1], &n); WBXMLTree *tree = NULL;
+            WBXMLError ret = wbxml_tree_from_xml(doc, (WB_ULONG)n, &tree);
             printf("R %d ; ", (int)ret);
             if (ret == WBXML_OK && tree) tio_print_tree(stdout, tree);
             puts("");
